@@ -118,6 +118,7 @@ class World:
         self.model_mode = 0
         self.loads = 0             # backing-store reads by the system under test
         self.sim_faults = []       # armed SimLoader / dict faults: [{"kind":..}]
+        self.uptodate_faults = 0   # armed: the next uptodate() of a custom-loader template raises
         self.fault_seqs = []       # seqs at which a fault was armed or fired
         self.dict_realm = CountingDict(self)
 
@@ -189,6 +190,11 @@ class SimLoader(BaseLoader):
         store = w.store
 
         def fresh():
+            if w.uptodate_faults and not w.model_mode:
+                w.uptodate_faults -= 1
+                w.fault_seqs.append(w.loop.seq)
+                bump(w.stats, "fault.uptodate_raised")
+                raise OSError(5, "injected EIO in uptodate")
             return store.current(ident) is v
 
         if self.style == "none":
@@ -282,7 +288,7 @@ class C23:
         "a name lives in exactly one realm of a choice loader for the whole run (priority shadowing by later-created sources is not generated)",
         "requests whose name itself starts with '<namespace>/' are not generated (inherent cache-key ambiguity)",
     ]
-    REQUIRED_REACH = ["reach.hit", "reach.reload", "reach.evict", "reach.sync_during_async", "reach.ns_switch",
+    REQUIRED_REACH = ["fault.uptodate_raised", "reach.hit", "reach.reload", "reach.evict", "reach.sync_during_async", "reach.ns_switch",
                       "reach.edit_in_flight", "reach.same_tick_edit", "reach.back_tick_edit",
                       "fault.cancel_landed", "fault.store_notfound", "fault.store_oserror", "fault.fs_errno"]
 
@@ -312,7 +318,7 @@ class C23:
         def gen_req():
             name = rng.choice(names) if rng.chance(0.93) else "zz"
             ns = rng.choice(NAMESPACES) if use_ns and rng.chance(0.75) else None
-            via = rng.weighted([("kw", 6), ("ctx", 2), ("tag:include", 2), ("tag:render", 1)])
+            via = rng.weighted([("kw", 6), ("ctx", 2), ("tag:include", 2), ("tag:render", 1), ("tag:extends", 1)])
             if ns is None and via == "ctx" and rng.chance(0.5):
                 via = "kw"
             ctx_ns = None
@@ -339,8 +345,8 @@ class C23:
             elif x < 0.93:
                 op = {"op": "delete", "ident": rng.choice(idents)}
             elif config == "fault":
-                op = {"op": "fault", "kind": rng.choice(["notfound", "oserror", "fs:EIO", "fs:EACCES", "fs:ENOENT"]),
-                      "n": 1}
+                op = {"op": "fault", "kind": rng.choice(["notfound", "oserror", "fs:EIO", "fs:EACCES", "fs:ENOENT",
+                                                         "uptodate"]), "n": 1}
             else:
                 op = gen_req()
             uid[0] += 1
@@ -474,8 +480,8 @@ class C23:
             self._apply_put(sc, w, ident, "next")
         loop = SimLoop(Rng(sc["sched_seed"], ("sched",)), step_cap=60000, lat_profile=sc["lat"])
         w.loop = loop
-        sut_env = Environment(loader=self._build_loader(sc, w, True), globals=dict(sc["env_globals"]))
-        mod_env = Environment(loader=self._build_loader(sc, w, False), globals=dict(sc["env_globals"]))
+        sut_env = Environment(extra=True, loader=self._build_loader(sc, w, True), globals=dict(sc["env_globals"]))
+        mod_env = Environment(extra=True, loader=self._build_loader(sc, w, False), globals=dict(sc["env_globals"]))
         cache = sut_env.loader.cache
         cap = sc["capacity"]
         first_req = {}          # cache key -> seq of the first request for it
@@ -669,6 +675,8 @@ class C23:
                     w.fault_seqs.append(loop.event("fault.arm"))
                     if op["kind"].startswith("fs:"):
                         w.plan.faults.append({"at": w.plan.calls + 1, "kind": "any", "errno": op["kind"][3:]})
+                    elif op["kind"] == "uptodate":
+                        w.uptodate_faults += 1
                     else:
                         w.sim_faults.append({"kind": op["kind"]})
                 else:
